@@ -127,6 +127,18 @@ fn corpus() -> Vec<String> {
         "\u{feff}#!/usr/bin/env lua\nreturn 1", "return 1\n\u{feff}", "--!strict\n#!x\nreturn 1",
         // interpolated strings whose first value starts with a table: the only thing between `{` `{` is trivia
         "return `{ {1} }`", "return `{ {} :: any }`", "return `{ {} == nil }`", "return `a{ {x = 1} }b{ {} }`",
+        // strings that a rule rebuilds without a token and that are long enough for the long-bracket form, directly
+        // inside an index / a bracketed table key (the token-preserving generator then writes `[` next to `[[`)
+        "local t = {}\nt[`aaaaaaaaaaaaaaaaaaaaaaaaaaaaaaaaaaaaaaaaaaaaaaaaaaaaaaaaaaaaaaaaaaaaaaaa`] = true\nreturn t",
+        "return { [`bbbbbbbbbbbbbbbbbbbbbbbbbbbbbbbbbbbbbbbbbbbbbbbbbbbbbbbbbbbbbbbbbbbbbbbb`] = 1 }",
+        "local t = {}\nreturn t['cccccccccccccccccccccccccccccccccccccccc' .. 'cccccccccccccccccccccccccccccccccccccccc']",
+        "return f[`dddddddddddddddddddddddddddddddddddddddddddddddddddddddddddddddddddddddd`](1)",
+        // last statements and last tokens of every kind (rules append to / read the last token of a file)
+        "return", "do return end", "local function f() return end\nreturn", "while true do break end", "return ...",
+        "return `hello {name}!`", "return `tail`;", "return f()", "return function() end", "return {}", "return (1)",
+        "return 1 :: number", "return a.b", "return a[1]", "return a:m()", "return f'x'", "return f{}", "return not a",
+        "return if a then 1 else 2", "local a = 1", "local a", "a.b = 1", "f()", "type T = number", "local a: number",
+        "export type U = { x: number }", "function f() end", "repeat until x", "for i = 1, 2 do end", "continue_ = 1",
         // literal parts of interpolated strings: bytes without a named escape followed by a digit, parts spanning lines
         "return `\\x1b0{count}`", "return `id:\\0307`", "return `\\31\\0579{1}\\0019`", "return `\\2550`",
         "return `first line\\\nsecond line`", "return `a\\z\n   b{1}c\\\nd`", "return `{1}\\\n{2}\\\r\n`",
@@ -240,6 +252,9 @@ fn main() {
                     "\"remove_comments\", \"remove_spaces\"",
                     "{ rule: \"append_text_comment\", text: \"generated\" }",
                     "{ rule: \"append_text_comment\", text: \"generated\", location: \"end\" }, \"remove_spaces\"",
+                    "{ rule: \"append_text_comment\", text: \"generated\", location: \"end\" }",
+                    "\"remove_interpolated_string\", \"compute_expression\"",
+                    "\"remove_compound_assignment\", { rule: \"append_text_comment\", text: \"two\\nlines\", location: \"end\" }, \"remove_spaces\"",
                 ] {
                     let config = format!("{{ generator: {}, rules: [{}] }}", generator, rules);
                     process_runs += 1;
